@@ -927,6 +927,9 @@ struct ByteSrc {
 
 impl ByteSrc {
     fn take(&mut self, n: usize) -> String {
+        if n == 0 {
+            return "-".into(); // the empty chunk
+        }
         let mut v = Vec::new();
         for _ in 0..n {
             // position-dependent, direction-dependent content
@@ -1003,7 +1006,8 @@ fn c02_rand_run(case: &mut Case, rng: &mut Rng) {
         for _ in 0..rng.below(3) {
             if c_open {
                 let op = if rng.chance(1, 3) { "tcp_pwrite" } else { "tcp_write" };
-                let n = rng.range(1, 5) as usize;
+                // chunk sizes include 0: an empty write is accepted as `Ok(0)` and is invisible to the reader
+                let n = if rng.chance(1, 7) { 0 } else { rng.range(1, 5) as usize };
                 // a write that is refused (WouldBlock/Pending) must not consume bytes of the source:
                 // generate, and rewind if it was not accepted
                 let before = src_c.pos;
@@ -1017,7 +1021,7 @@ fn c02_rand_run(case: &mut Case, rng: &mut Rng) {
         }
         for _ in 0..rng.below(3) {
             if s_open {
-                let n = rng.range(1, 5) as usize;
+                let n = if rng.chance(1, 7) { 0 } else { rng.range(1, 5) as usize };
                 let before = src_s.pos;
                 case.ctl(&format!("q h{s} tcp_write s{ss} {}", src_s.take(n)));
                 case.ctl("step");
